@@ -145,7 +145,11 @@ func c18Ops() []c18Op {
 		}},
 		{Name: "S.Row", Run: func(db *gorm.DB, rng *rand.Rand) error {
 			var n int
-			return db.Model(&RUser{}).Select("count(*)").Row().Scan(&n)
+			row := db.Model(&RUser{}).Select("count(*)").Row()
+			if row == nil { // DryRun
+				return nil
+			}
+			return row.Scan(&n)
 		}},
 		{Name: "S.FirstOrCreate", Run: func(db *gorm.DB, rng *rand.Rand) error {
 			var c RCompany
